@@ -124,6 +124,60 @@ class PendingComp(PendingExprGeneric[_CompNode]):
             raise RuntimeError("Unknown comprehension target")
 
 
+class PendingLambda(PendingExprGeneric[Lambda]):
+    """
+    Parameters of a lambda shadow outer names inside its body,
+    and its defaults are evaluated in the enclosing scope.
+    """
+
+    target_names: set[str]
+
+    def __init__(self, node: Lambda, nsp: Namespace):
+        self.node = node
+        self.nsp = nsp
+        _args = node.args
+        self.target_names = {
+            _arg.arg for _arg in [*_args.posonlyargs, *_args.args, *_args.kwonlyargs]
+        }
+        if _args.vararg is not None:
+            self.target_names.add(_args.vararg.arg)
+        if _args.kwarg is not None:
+            self.target_names.add(_args.kwarg.arg)
+
+        self.iter_fields = self._iter_fields()
+
+    def _iter_fields(self):
+        self.defaults = []
+        for default in self.node.args.defaults:
+            self.defaults.append((yield default))
+        self.kw_defaults = []
+        for kw_default in self.node.args.kw_defaults:
+            if kw_default is None:
+                self.kw_defaults.append(None)
+            else:
+                self.kw_defaults.append((yield kw_default))
+        # only the body sees the parameters
+        self.nsp.comp_stack.append(self)  # type: ignore
+        self.body = yield self.node.body
+
+    def get_result(self) -> expr:
+        assert self.nsp.comp_stack[-1] is self
+        self.nsp.comp_stack.pop()
+        _args = self.node.args
+        return Lambda(
+            args=arguments(
+                posonlyargs=_args.posonlyargs,
+                args=_args.args,
+                vararg=_args.vararg,
+                kwonlyargs=_args.kwonlyargs,
+                kw_defaults=self.kw_defaults,
+                kwarg=_args.kwarg,
+                defaults=self.defaults,
+            ),
+            body=self.body,
+        )
+
+
 class ExpressionTransformer:
     def __init__(self, nsp: Namespace):
         self.pending_stack: list[PendingExprGeneric] = []
@@ -136,6 +190,8 @@ class ExpressionTransformer:
             return PendingName(node, self.nsp)
         elif isinstance(node, (ListComp, SetComp, DictComp, GeneratorExp)):
             return PendingComp(node, self.nsp)
+        elif isinstance(node, Lambda):
+            return PendingLambda(node, self.nsp)
         else:
             return PendingExpr(node)
 
